@@ -62,7 +62,7 @@ U_EPS = 2.0 ** -53
 def budget(tier):
     if tier == "quick":
         return {"examples": 5000, "shards": 8}
-    return {"examples": 500000, "shards": 16}
+    return {"examples": 300000, "shards": 16}
 
 
 # ---------------------------------------------------------------- strategy
